@@ -157,6 +157,8 @@ type Job struct {
 	Scale       bool              `json:"scale_invariant,omitempty"` // counterexamples may be scaled to integers
 	Cube        int               `json:"cube,omitempty"`            // number of nonlinear polynomials to case-split by sign
 	NoCover     bool              `json:"no_cover,omitempty"`
+	NoKnown     bool              `json:"no_known,omitempty"`        // skip known-finding obligations (their presence is established by witness replay)
+	Nlsat       bool              `json:"nlsat_first,omitempty"`     // conjunctive path queries: z3 4.8.12 default tactic only, others on unknown
 	Abstract    bool              `json:"abstract_floats,omitempty"` // harness runs with uninterpreted float arithmetic: cover witnesses are not replayed natively
 	Combine     bool              `json:"combine,omitempty"`         // one query per path: the disjunction of all assertion violations
 	LatticeOnly int               `json:"lattice_only,omitempty"`    // if >0: only search integer coordinates |c| <= bound (bug hunting on the lattice, no claim beyond it)
@@ -215,6 +217,7 @@ type pendingQuery struct {
 	intScript string
 	intSmall  string
 	noRetry   bool
+	nlsat     bool
 	getvals   []string // names for values
 	timeout   int
 	kind      string
@@ -459,6 +462,9 @@ func (r *Runner) runJob(job Job) *JobResult {
 			if ob.Kind == "cover" && job.NoCover {
 				continue
 			}
+			if ob.Kind == "known" && job.NoKnown {
+				continue
+			}
 			res := &OblResult{Job: job.key(), Kind: ob.Kind, Label: ob.Label, Pos: ob.Pos, job: &jr.Job, Path: p.decisions}
 			res.Size = termSize(ob.Formula)
 			jr.TermNodes += res.Size
@@ -479,7 +485,7 @@ func (r *Runner) runJob(job Job) *JobResult {
 				res.combOff = len(getT) + len(traceT)
 			}
 			script := Script([]*Term{ob.Formula}, ScriptOpts{GetValues: gv})
-			q := &pendingQuery{res: res, script: script, getvals: names, timeout: timeout, kind: ob.Kind}
+			q := &pendingQuery{res: res, script: script, getvals: names, timeout: timeout, kind: ob.Kind, nlsat: job.Nlsat}
 			// integer re-query script (for replayable models) for real-valued inputs
 			iv := map[string]bool{}
 			for _, inp := range p.inputs {
@@ -542,7 +548,7 @@ func (r *Runner) dispatch(q *pendingQuery, nTraces int, traceNames []string) {
 }
 
 func (r *Runner) solveOne(q *pendingQuery, traceNames []string) {
-	sr, _ := portfolio(q.script, q.intSmall, q.timeout, q.noRetry)
+	sr, _ := portfolio(q.script, q.intSmall, q.timeout, q.noRetry, q.nlsat)
 	if sr.status == "error" {
 		q.res.Detail = firstLines(sr.raw, 3)
 	}
